@@ -315,4 +315,70 @@ mod verif_result {
         assert!((bits2 == 0) == !some);
         drop(ob);
     }
+
+    // ---- asymmetric payloads: drop glue on only one arm (Result<(), Box<E>>, Result<Box<T>, ()> ...)
+    trait Payload: Sized {
+        const GLUE: u32;
+        fn make(id: u8) -> Self;
+        fn id(&self) -> u8;
+    }
+    impl Payload for Tok {
+        const GLUE: u32 = 1;
+        fn make(id: u8) -> Self { Tok(id) }
+        fn id(&self) -> u8 { self.0 }
+    }
+    struct Plain(u8);
+    impl Payload for Plain {
+        const GLUE: u32 = 0;
+        fn make(id: u8) -> Self { Plain(id) }
+        fn id(&self) -> u8 { self.0 }
+    }
+    impl Payload for () {
+        const GLUE: u32 = 0;
+        fn make(_: u8) -> Self {}
+        fn id(&self) -> u8 { 0 }
+    }
+
+    fn lifecycle<T: Payload, E: Payload>() {
+        let ok: bool = kani::any();
+        let id: u8 = kani::any();
+        let path: u8 = kani::any();
+        let expected = if ok { T::GLUE } else { E::GLUE };
+        let r: Result<T, E> = if ok { Ok(T::make(id)) } else { Err(E::make(id)) };
+        let d: DiplomatResult<T, E> = r.into();
+        assert!(drops() == 0);
+        assert!(d.is_ok == ok);
+        if path == 0 {
+            // dropped as a DiplomatResult: the live arm's payload is dropped exactly once (never leaked)
+            drop(d);
+            assert!(drops() == expected);
+        } else {
+            // converted back: nothing dropped by the conversion, payload identical, later dropped exactly once
+            let back: Result<T, E> = d.into();
+            assert!(drops() == 0);
+            match &back {
+                Ok(t) => assert!(ok && (T::GLUE == 0 && E::GLUE == 0 || t.id() == id || core::mem::size_of::<T>() == 0)),
+                Err(e) => assert!(!ok && (e.id() == id || core::mem::size_of::<E>() == 0)),
+            }
+            drop(back);
+            assert!(drops() == expected);
+        }
+        kani::cover!(ok && path == 0);
+        kani::cover!(!ok && path == 0);
+        kani::cover!(ok && path != 0);
+        kani::cover!(!ok && path != 0);
+    }
+
+    #[kani::proof]
+    fn lifecycle_plain_ok_glue_err() { lifecycle::<Plain, Tok>(); }
+    #[kani::proof]
+    fn lifecycle_glue_ok_plain_err() { lifecycle::<Tok, Plain>(); }
+    #[kani::proof]
+    fn lifecycle_unit_ok_glue_err() { lifecycle::<(), Tok>(); }
+    #[kani::proof]
+    fn lifecycle_glue_ok_unit_err() { lifecycle::<Tok, ()>(); }
+    #[kani::proof]
+    fn lifecycle_plain_plain() { lifecycle::<Plain, Plain>(); }
+    #[kani::proof]
+    fn lifecycle_glue_glue() { lifecycle::<Tok, Tok>(); }
 }
